@@ -20,11 +20,6 @@ def nsPerMin : Nat := 60 * nsPerS
 def nsPerHour : Nat := 60 * nsPerMin
 def nsPerDay : Nat := 24 * nsPerHour
 
-/-- decimal digits, most significant first (`fmtInt`; 0 is "0") -/
-def decDigits : (fuel : Nat) → Nat → Bytes
-  | 0, _ => []
-  | f + 1, v => if v < 10 then [(48 + v).toUInt8] else decDigits f (v / 10) ++ [(48 + v % 10).toUInt8]
-
 def fmtInt (v : Nat) : Bytes := decDigits (v + 1) v
 
 /-- `fmtFrac`: the `prec` low decimal digits of v without trailing zeros, preceded by '.' if any. -/
